@@ -29,13 +29,14 @@ import (
 )
 
 type caseT struct {
-	Kind  string   `json:"kind"` // core | stmt | child
+	Kind  string   `json:"kind"` // core | stmt | seq | child
 	Fn    string   `json:"fn,omitempty"`
 	Str   string   `json:"str,omitempty"`
 	Pad   string   `json:"pad,omitempty"`
 	A     int64    `json:"a,omitempty"`
 	B     int64    `json:"b,omitempty"`
 	Setup []string `json:"setup,omitempty"`
+	Stmts []string `json:"stmts,omitempty"` // kind seq: statements run in order on a fresh, empty engine
 	SQL   string   `json:"sql,omitempty"`
 	Shape string   `json:"shape,omitempty"` // how the statement was produced (used in signatures)
 }
@@ -122,6 +123,7 @@ func (s *sess) query(q string, deadline time.Duration) result {
 }
 
 func normMsg(m string) string {
+	m = regexp.MustCompile("`[^`]*`").ReplaceAllString(m, "`_`")
 	m = regexp.MustCompile(`-?\d+`).ReplaceAllString(m, "N")
 	if len(m) > 60 {
 		m = m[:60]
@@ -406,6 +408,149 @@ func freshSess() *sess {
 	return s
 }
 
+// ---------- (c) DDL / DML sequences on a fresh engine ----------
+var colTypes = []string{"INT", "INT NOT NULL", "BIGINT NOT NULL", "VARCHAR(10)", "VARCHAR(10) NOT NULL", "VARCHAR(10) CHARACTER SET latin1", "DECIMAL(8,2)", "DATETIME", "TEXT", "INT DEFAULT 5"}
+var idxNames = []string{"i0", "I1", "Iac", "iAC", "idx_Mixed"}
+
+func genSeq(r *lib.RNG) caseT {
+	type tab struct {
+		name string
+		cols []string
+	}
+	var tabs []tab
+	var out []string
+	col := func() string { return fmt.Sprintf("c%d", r.Intn(6)) }
+	lits := []string{"1", "-1", "NULL", "2147483648", "-2147483649", "9223372036854775807", "'a'", "'日'", "'é'", "1.5", "''"}
+	newTab := func() {
+		t := tab{name: fmt.Sprintf("t%d", len(tabs))}
+		n := r.Range(1, 4)
+		var defs []string
+		seen := map[string]bool{}
+		for i := 0; i < n; i++ {
+			c := col()
+			if seen[c] {
+				continue
+			}
+			seen[c] = true
+			t.cols = append(t.cols, c)
+			defs = append(defs, c+" "+lib.Pick(r, colTypes))
+		}
+		switch r.Intn(4) {
+		case 0:
+			defs = append(defs, "PRIMARY KEY ("+t.cols[0]+")")
+		case 1:
+			defs = append(defs, "KEY k0 ("+lib.Pick(r, t.cols)+")")
+		}
+		out = append(out, fmt.Sprintf("CREATE TABLE %s (%s)", t.name, strings.Join(defs, ", ")))
+		tabs = append(tabs, t)
+	}
+	newTab()
+	n := r.Range(2, 7)
+	for i := 0; i < n; i++ {
+		t := &tabs[r.Intn(len(tabs))]
+		anyCol := func() string {
+			if len(t.cols) > 0 && r.Chance(4, 5) {
+				return lib.Pick(r, t.cols)
+			}
+			return col()
+		}
+		switch r.Intn(14) {
+		case 0:
+			c := anyCol()
+			out = append(out, fmt.Sprintf("ALTER TABLE %s DROP COLUMN %s", t.name, c))
+			var keep []string
+			for _, x := range t.cols {
+				if x != c {
+					keep = append(keep, x)
+				}
+			}
+			t.cols = keep
+		case 1:
+			c := col()
+			pos := ""
+			if r.Chance(1, 3) {
+				pos = " FIRST"
+			} else if r.Chance(1, 3) && len(t.cols) > 0 {
+				pos = " AFTER " + lib.Pick(r, t.cols)
+			}
+			out = append(out, fmt.Sprintf("ALTER TABLE %s ADD COLUMN %s %s%s", t.name, c, lib.Pick(r, colTypes), pos))
+			t.cols = append(t.cols, c)
+		case 2:
+			out = append(out, fmt.Sprintf("ALTER TABLE %s MODIFY COLUMN %s %s", t.name, anyCol(), lib.Pick(r, colTypes)))
+		case 3:
+			out = append(out, fmt.Sprintf("ALTER TABLE %s RENAME COLUMN %s TO %s", t.name, anyCol(), col()))
+		case 4, 5:
+			u := ""
+			if r.Chance(1, 3) {
+				u = "UNIQUE "
+			}
+			cols := anyCol()
+			if r.Chance(1, 2) {
+				cols += ", " + anyCol()
+			}
+			out = append(out, fmt.Sprintf("CREATE %sINDEX %s ON %s (%s)", u, lib.Pick(r, idxNames), t.name, cols))
+		case 6:
+			out = append(out, fmt.Sprintf("DROP INDEX %s ON %s", lib.Pick(r, idxNames), t.name))
+		case 7, 8:
+			var vs []string
+			for range t.cols {
+				vs = append(vs, lib.Pick(r, lits))
+			}
+			if len(vs) == 0 {
+				vs = []string{"1"}
+			}
+			out = append(out, fmt.Sprintf("INSERT INTO %s VALUES (%s)", t.name, strings.Join(vs, ", ")))
+		case 9:
+			out = append(out, fmt.Sprintf("SELECT * FROM %s WHERE %s IN (%s, %s)", t.name, anyCol(), lib.Pick(r, lits), lib.Pick(r, lits)))
+		case 10:
+			fn := lib.Pick(r, []string{"MIN", "MAX", "SUM", "COUNT", "FIRST_VALUE", "AVG"})
+			a, b := r.Range(0, 3), r.Range(0, 3)
+			kinds := []string{"PRECEDING", "FOLLOWING"}
+			out = append(out, fmt.Sprintf("SELECT %s(%s) OVER (ORDER BY %s ROWS BETWEEN %d %s AND %d %s) FROM %s", fn, anyCol(), anyCol(), a, lib.Pick(r, kinds), b, lib.Pick(r, kinds), t.name))
+		case 11:
+			out = append(out, lib.Pick(r, []string{"START TRANSACTION READ ONLY", "START TRANSACTION", "COMMIT", "ROLLBACK", "SET autocommit = 0"}))
+		case 12:
+			out = append(out, fmt.Sprintf("UPDATE %s SET %s = %s", t.name, anyCol(), lib.Pick(r, lits)))
+			if r.Chance(1, 2) {
+				out = append(out, fmt.Sprintf("SELECT HEX(%s), LENGTH(%s) FROM %s", anyCol(), anyCol(), t.name))
+			}
+		default:
+			if len(tabs) < 3 {
+				newTab()
+			} else {
+				out = append(out, fmt.Sprintf("DELETE FROM %s WHERE %s = %s", t.name, anyCol(), lib.Pick(r, lits)))
+			}
+		}
+	}
+	return caseT{Kind: "seq", Stmts: out, Shape: "seq"}
+}
+
+func runSeq(c *lib.Ctx, cs caseT) {
+	s := newSess()
+	id := c.CaseNoModel(cs, strings.Join(cs.Stmts, "; "))
+	c.Count("seq")
+	for _, q := range cs.Stmts {
+		c.PredChecked()
+		res := s.query(q, 5*time.Second)
+		switch {
+		case res.timeout:
+			c.Count("seq/hang")
+			c.PredFail(id, "hang/seq", fmt.Sprintf("%q (in: %s) did not return within 5 s", q, strings.Join(cs.Stmts, "; ")), cs)
+			return
+		case res.panicV != "":
+			c.Count("seq/panic")
+			c.PredFail(id, "panic/"+res.frame+"/"+normMsg(res.panicV), fmt.Sprintf("%q panicked: %s (in %s) after: %s", q, res.panicV, res.frame, strings.Join(cs.Stmts, "; ")), cs)
+		case res.err != nil:
+			c.Count("seq/stmt-error")
+		default:
+			c.Count("seq/stmt-ok")
+		}
+	}
+	if r2 := s.query("SELECT 1", 5*time.Second); r2.err != nil || r2.panicV != "" || r2.timeout || r2.rows != 1 {
+		c.PredFail(id, "session-unusable-after/seq", "SELECT 1 failed after "+strings.Join(cs.Stmts, "; "), cs)
+	}
+}
+
 // ---------- child process for inputs that kill the process ----------
 func childMain(sqlText string) {
 	// an address-space limit makes the outcome independent of the machine's memory
@@ -444,7 +589,7 @@ func main() {
 		c.SetRule("1/4 modelled cores: SUBSTRING/LEFT/RIGHT/INSERT/LPAD/RPAD over 7 strings with small and boundary int64 arguments (pad lengths tiny or beyond the " +
 			"runtime's allocation limit, never in between); 3/4 whole-engine statements: random built-in function (all registered names except blocking / " +
 			"allocation-proportional / WKB-reading ones) applied to 0-4 arguments drawn from typed literals, charset introducers, CONVERT USING, COLLATE, " +
-			"columns, subqueries; and 1-3 token-level edits (swap, delete, duplicate, literal, splice, truncate) of 28 seed statements. Each statement runs " +
+			"columns, subqueries; DDL/DML sequences on a fresh engine (CREATE TABLE, ALTER DROP/ADD/MODIFY/RENAME COLUMN, index DDL with mixed-case names, transactions, window frames, out-of-range IN lists); and 1-3 token-level edits (swap, delete, duplicate, literal, splice, truncate) of 28 seed statements. Each statement runs " +
 			"in its own goroutine under recover with a 5 s deadline, followed by a probe query on the same session. Non-trivial = distinct statement text.")
 		s := freshSess()
 		if c.ReplayFile != "" {
@@ -471,6 +616,20 @@ func main() {
 			{Kind: "stmt", Shape: "corpus", SQL: "SELECT curtime(d) FROM t"},
 			{Kind: "stmt", Shape: "corpus", SQL: "SELECT string_to_vector(X'')"},
 			{Kind: "stmt", Shape: "corpus", SQL: "SELECT LENGTH(SPACE(2000000000))"},
+			{Kind: "seq", Stmts: []string{"CREATE TABLE t0 (c0 INT NOT NULL, c1 INT, PRIMARY KEY (c0))", "ALTER TABLE t0 DROP COLUMN c0"}},
+			{Kind: "seq", Stmts: []string{"CREATE TABLE t2 (c4 INT, c0 BIGINT NOT NULL, c2 INT)", "CREATE UNIQUE INDEX i3 ON t2 (c2)", "ALTER TABLE t2 DROP COLUMN c2"}},
+			{Kind: "seq", Stmts: []string{"CREATE TABLE t1 (c0 VARCHAR(10) NOT NULL)", "ALTER TABLE t1 DROP COLUMN c0", "ALTER TABLE t1 ADD COLUMN c2 INT"}},
+			{Kind: "seq", Stmts: []string{"CREATE TABLE t0 (c2 INT NOT NULL)", "ALTER TABLE t0 DROP COLUMN c2", "CREATE INDEX i0 ON t0 (c0, c5)"}},
+			{Kind: "seq", Stmts: []string{`SELECT JSON_UNQUOTE('"\\ud83d\\ude00"')`}},
+			{Kind: "seq", Stmts: []string{`SELECT JSON_UNQUOTE('\\u123')`}},
+			{Kind: "seq", Stmts: []string{"CREATE TABLE t (a VARCHAR(10) CHARACTER SET latin1)", "INSERT INTO t VALUES ('日')", "SELECT HEX(a) FROM t"}},
+			{Kind: "seq", Stmts: []string{"SELECT HEX(CONVERT(_utf8mb4 x'EDA080' USING utf16))"}},
+			{Kind: "seq", Stmts: []string{"CREATE TABLE t (id INT PRIMARY KEY, a INT)", "START TRANSACTION READ ONLY", "INSERT INTO t VALUES (1, 2)"}},
+			{Kind: "seq", Stmts: []string{"CREATE TABLE t (id INT PRIMARY KEY, x INT)", "INSERT INTO t VALUES (1,1),(2,2),(3,3),(4,4)", "SELECT MIN(x) OVER (ORDER BY id ROWS BETWEEN 3 PRECEDING AND 2 PRECEDING) FROM t"}},
+			{Kind: "seq", Stmts: []string{"CREATE TABLE t (id INT PRIMARY KEY, a INT, KEY ia (a))", "INSERT INTO t VALUES (1,1),(2,2)", "SELECT * FROM t WHERE a IN (2147483648)"}},
+			{Kind: "seq", Stmts: []string{"CREATE TABLE t0 (c4 DECIMAL(8,2), c5 VARCHAR(10), PRIMARY KEY (c4))", "CREATE INDEX Iac ON t0 (c4)", "ALTER TABLE t0 RENAME COLUMN c4 TO c3", "INSERT INTO t0 VALUES (1.5, 'x')"}},
+			{Kind: "seq", Stmts: []string{"CREATE TABLE t (id INT PRIMARY KEY, a INT)", "UPDATE t SET @@session.sql_mode = 'x' WHERE id IN (SELECT id FROM t)"}},
+			{Kind: "seq", Stmts: []string{"CREATE TABLE t (id INT PRIMARY KEY, a INT, c INT)", "CREATE INDEX Iac ON t(a,c)", "INSERT INTO t VALUES (1,1,1)", "DROP INDEX Iac ON t", "INSERT INTO t VALUES (2,2,2)"}},
 			{Kind: "child", Shape: "st_geomfromwkb/collection-count-2^32-1", SQL: "SELECT ST_AsText(ST_GeomFromWKB(X'0107000000FFFFFFFF'))"},
 		}
 		for _, cs := range corpus {
@@ -479,11 +638,13 @@ func main() {
 		for i := len(corpus); i < c.N; i++ {
 			r := c.R.Fork()
 			var cs caseT
-			switch k := r.Intn(8); {
+			switch k := r.Intn(10); {
 			case k < 2:
 				cs = genCore(r)
 			case k < 5:
 				cs = genFnCall(r)
+			case k < 7:
+				cs = genSeq(r)
 			default:
 				cs = genShuffle(r)
 			}
@@ -501,6 +662,8 @@ func runOne(c *lib.Ctx, s **sess, cs caseT) {
 		runCore(c, *s, cs)
 	case "child":
 		runChild(c, cs)
+	case "seq":
+		runSeq(c, cs)
 	default:
 		runStmt(c, s, cs)
 	}
